@@ -1,0 +1,9 @@
+//go:build verif
+
+package cmd
+
+// PathAbsThenRel exposes pathAbsThenRel to the verification harness (builds
+// with the "verif" tag only).
+func PathAbsThenRel(base, path string) (string, error) {
+	return pathAbsThenRel(base, path)
+}
